@@ -123,6 +123,60 @@ def gen_sm(ctx, rng):
                 sampler="list")
 
 
+TP_SPACES = dict(interval=[["x", 1]], par2d=[["x", 2]], product=[["x", 1], ["t", 1]], dependent=[["x", 1], ["t", 1]])
+
+
+def gen_sm_tp(ctx, rng):
+    """the same conditions on the library's own samplers (float32 points; product samplers; a domain whose
+    bound depends on another sampled variable = sampling with parameters)"""
+    while True:
+        c = gen_sm(ctx, rng)
+        if c["interval"] is None:
+            break
+    kind = rng.choice(["interval", "par2d", "product", "dependent"])
+    space = TP_SPACES[kind]
+    # re-target the generated structure to this space: regenerate everything that mentions variables
+    in_space = space[:]
+    rng.shuffle(in_space)
+    out_space = c["net"]["out"]
+    c["net"] = {"in": in_space, "out": out_space,
+                "body": [pe_to_json(cc.gen_pe(rng, scalar_vars(in_space), 2)) for _ in range(dim_of(out_space))]}
+    c["data"] = [gen_fn(rng, d["name"], space, len(d["body"])) for d in c["data"]]
+    avail = list(space) + [[p[0], len(p[1])] for p in c["param"]] + [[d["name"], len(d["body"])] for d in c["data"]]
+    if c["cls"] != "hpm":
+        avail += out_space
+    c["resid"] = gen_fn(rng, "resid", avail, rng.randint(1, 2), deg=2)
+    varying = [a[0] for a in avail if a[0] not in [p[0] for p in c["param"]]]
+    if not set(c["resid"]["params"]) & set(varying):
+        c["resid"]["params"].insert(0, rng.choice(varying))
+    c["ders"] = []
+    if c["cls"] != "hpm" and rng.random() < 0.4:
+        o, i = out_space[0], rng.choice(in_space)
+        for nm in (o[0], i[0]):
+            if nm not in c["resid"]["params"]:
+                c["resid"]["params"].insert(0, nm)
+        dn = der_name(o[0], i[0])
+        c["ders"] = [[dn, o[1] * i[1]]]
+        c["resid"]["body"][0] = ["+", c["resid"]["body"][0], ["v", dn, 0]]
+    c.update(space=space, sets=[], sampler="tp", tp=dict(kind=kind, n=rng.choice([1, 2, 3, 5]), m=rng.choice([1, 2, 3]),
+                                                       grid=rng.random() < 0.3, seed=rng.randint(0, 10 ** 6)))
+    return c
+
+
+def build_tp_sampler(tp, torch, spec):
+    X1, X2, T = tp.spaces.R1("x"), tp.spaces.R2("x"), tp.spaces.R1("t")
+    S = tp.samplers.GridSampler if spec["grid"] else tp.samplers.RandomUniformSampler
+    k, n, m = spec["kind"], spec["n"], spec["m"]
+    if k == "interval":
+        return S(tp.domains.Interval(X1, 0.0, 2.0), n_points=n)
+    if k == "par2d":
+        return tp.samplers.RandomUniformSampler(tp.domains.Parallelogram(X2, [0.0, 0.0], [1.0, 0.0], [0.0, 2.0]), n_points=n)
+    st = tp.samplers.RandomUniformSampler(tp.domains.Interval(T, 0.0, 2.0), n_points=m)
+    if k == "product":
+        return S(tp.domains.Interval(X1, -1.0, 1.0), n_points=n) * st
+    return tp.samplers.RandomUniformSampler(tp.domains.Interval(X1, 0.0, lambda t: t + 1.0), n_points=n) * st
+
+
 # ------------------------------------------------------------------------------------------------
 # implementation run
 
@@ -203,7 +257,11 @@ def run_sm(case):
     C = classes()
     tp, torch = C["tp"], C["torch"]
     space = case["space"]
-    inner = C["ListSampler"](space, [prow(s) for s in case["sets"]])
+    if case["sampler"] == "tp":
+        torch.manual_seed(case["tp"]["seed"])
+        inner = build_tp_sampler(tp, torch, case["tp"])
+    else:
+        inner = C["ListSampler"](space, [prow(s) for s in case["sets"]])
     sampler = inner.make_static(case["interval"] if case["interval"] is not None else math.inf) if case["static"] else inner
     rec = Recorder(sampler)
     net = case["net"]
@@ -403,6 +461,11 @@ def judge_sm(rep, case, res, replies):
     if len(res["construct_points"]) != want_draws:
         rep.disagree("sm: number of point sets drawn from the sampler during construction", case,
                      len(res["construct_points"]), want_draws)
+    f32 = case["sampler"] == "tp"       # the library's samplers emit float32: everything downstream is float32
+    ltol = (3e-4, 1e-4) if f32 else (TOL["rel"], TOL["abs"])
+    atol = (1e-4, 1e-5) if f32 else (1e-12, 1e-12)
+    if f32:
+        rep.count("sm:library-sampler:" + case["tp"]["kind"])
     for k in range(case["calls"]):
         pts = res["points"][k]
         if len(pts) != 1:
@@ -417,7 +480,7 @@ def judge_sm(rep, case, res, replies):
             continue
         # ---- oracle 1: documented reduction of the residual values the residual function returned
         doc = documented_reduction(case["err"], case["red"], out)
-        if doc is None or not close(loss, float(doc), TOL["rel"], TOL["abs"]):
+        if doc is None or not close(loss, float(doc), *ltol):
             rep.fail(f"{cls}: forward call {k} returned {loss!r}; the documented reduction ({case['err']}/{case['red']}) of the "
                      f"residual values on the {n} sampled points is {float(doc) if doc is not None else None!r}", case,
                      detail=dict(call=k, residual=[[str(v) for v in r] for r in out]), finding=None)
@@ -428,7 +491,7 @@ def judge_sm(rep, case, res, replies):
             if want is None:
                 rep.fail(f"residual received an argument '{name}' that is none of coordinates/outputs/parameters/data", case)
                 continue
-            if not rows_close(expand(got, n), want, 1e-12, 1e-12):
+            if not rows_close(expand(got, n), want, *atol):
                 kind = ("data function" if name in [d["name"] for d in case["data"]] else
                         "derivative" if name.startswith("d") and "." in name else "argument")
                 finding = None
@@ -442,15 +505,15 @@ def judge_sm(rep, case, res, replies):
         if "error" in m:
             rep.disagree("sm: model rejects, implementation returns a loss", dict(case=case, call=k), loss, m["error"])
             continue
-        if not close(loss, float(m["loss"]), TOL["rel"], TOL["abs"]):
+        if not close(loss, float(m["loss"]), *ltol):
             rep.disagree("sm loss: drivers/C04.lean `sm` vs Condition.forward()", dict(case=case, call=k), loss, str(m["loss"]))
-        if not rows_close(out, m["res"], 1e-12, 1e-12):
+        if not rows_close(out, m["res"], *atol):
             rep.disagree("sm residual table", dict(case=case, call=k), [[str(v) for v in r] for r in out], [[str(v) for v in r] for r in m["res"]])
         names = case["resid"]["params"] + [d[0] for d in case["ders"]]
         for i in range(n):
             for j, name in enumerate(names):
                 got = expand(args[name], n)[i] if name in args else None
-                if got is None or not rows_close([got], [m["bound"][i][j]], 1e-12, 1e-12):
+                if got is None or not rows_close([got], [m["bound"][i][j]], *atol):
                     rep.disagree(f"sm argument binding '{name}' row {i}", dict(case=case, call=k),
                                  None if got is None else [str(v) for v in got], [str(v) for v in m["bound"][i][j]])
                     break
@@ -1050,6 +1113,8 @@ def gen_cases(ctx):
     cases = []
     for _ in range(ctx.scale(220, 2400)):
         cases.append(gen_sm(ctx, rng))
+    for _ in range(ctx.scale(50, 550)):
+        cases.append(gen_sm_tp(ctx, rng))
     for _ in range(ctx.scale(80, 900)):
         cases.append(gen_data(ctx, rng))
     for _ in range(ctx.scale(80, 900)):
@@ -1061,7 +1126,8 @@ def gen_cases(ctx):
 
 def nontrivial(case):
     if case["kind"] == "sm":
-        return len(case["sets"][0]) >= 2 and (len(case["space"]) >= 2 or case["data"] or case["param"])
+        nrows = len(case["sets"][0]) if case["sets"] else case["tp"]["n"] * (case["tp"]["m"] if len(case["space"]) > 1 else 1)
+        return nrows >= 2 and (len(case["space"]) >= 2 or bool(case["data"]) or bool(case["param"]))
     if case["kind"] == "data":
         return len(case["xs"]) >= 2
     if case["kind"] == "per":
